@@ -121,22 +121,40 @@ pub trait IterHandle {
     fn rest(&self) -> Vec<Item>;
     /// remaining items back to front, pulled one by one from a clone (bounded)
     fn rest_rev(&self) -> Vec<Item>;
+    /// (clone.nth(j), clone.nth_back(j)) on two fresh clones: a spot check of the remaining window
+    fn probe(&self, j: usize) -> (Item, Item);
     fn debug_fmt(&self) -> String;
 }
 
 pub struct H<E: IntoEnumIterator + 'static> {
     it: E::Iterator,
     exp: Rc<Vec<E>>,
+    /// index of the item identified last: items mostly come out next to each other, so the
+    /// neighbours are tried before the linear search (matters for enums with thousands of variants)
+    near: std::cell::Cell<usize>,
 }
 
 impl<E: IntoEnumIterator + PartialEq + Debug + 'static> H<E> {
     fn id(&self, x: Option<E>) -> Item {
         match x {
             None => Item::None,
-            Some(v) => match self.exp.iter().position(|e| *e == v) {
-                Some(i) => Item::Some(i),
-                None => Item::Alien(format!("{:?}", v)),
-            },
+            Some(v) => {
+                let n = self.exp.len();
+                let c = self.near.get();
+                for cand in [c.wrapping_add(1), c.wrapping_sub(1), c] {
+                    if cand < n && self.exp[cand] == v {
+                        self.near.set(cand);
+                        return Item::Some(cand);
+                    }
+                }
+                match self.exp.iter().position(|e| *e == v) {
+                    Some(i) => {
+                        self.near.set(i);
+                        Item::Some(i)
+                    }
+                    None => Item::Alien(format!("{:?}", v)),
+                }
+            }
         }
     }
     fn ids(&self, v: Vec<E>) -> Vec<Item> {
@@ -175,7 +193,7 @@ where
         self.it.size_hint()
     }
     fn dup(&self) -> Box<dyn IterHandle> {
-        Box::new(H::<E> { it: self.it.clone(), exp: self.exp.clone() })
+        Box::new(H::<E> { it: self.it.clone(), exp: self.exp.clone(), near: std::cell::Cell::new(self.near.get()) })
     }
     fn skip_next(&mut self, k: usize) -> Item {
         let x = self.it.by_ref().skip(k).next();
@@ -286,6 +304,11 @@ where
         }
         out
     }
+    fn probe(&self, j: usize) -> (Item, Item) {
+        let a = self.it.clone().nth(j);
+        let b = self.it.clone().nth_back(j);
+        (self.id(a), self.id(b))
+    }
     fn debug_fmt(&self) -> String {
         format!("{:?}", self.it)
     }
@@ -296,7 +319,7 @@ where
     E: IntoEnumIterator + PartialEq + Debug + 'static,
     E::Iterator: Debug,
 {
-    Box::new(H::<E> { it: E::iter(), exp: Rc::new(expected) })
+    Box::new(H::<E> { it: E::iter(), exp: Rc::new(expected), near: std::cell::Cell::new(0) })
 }
 
 pub struct Case {
@@ -573,6 +596,16 @@ pub struct Exec<'a> {
     pub log: Option<Vec<String>>,
 }
 
+pub const FULL_DRAIN_LIMIT: usize = 300;
+
+fn show_items_short(v: &[Item]) -> String {
+    if v.len() <= 40 {
+        show_items(v)
+    } else {
+        format!("{} items: {} ... {}", v.len(), show_items(&v[..8]), show_items(&v[v.len() - 8..]))
+    }
+}
+
 fn show_items(v: &[Item]) -> String {
     let parts: Vec<String> = v.iter().map(|i| i.show()).collect();
     format!("[{}]", parts.join(", "))
@@ -604,15 +637,30 @@ impl<'a> Exec<'a> {
         if sh != (want_len, Some(want_len)) {
             return Err(fail("size_hint", format!("({}, Some({}))", want_len, want_len), format!("{:?}", sh)));
         }
-        let rest = catch(|| s.real.rest()).map_err(|p| fail("panic_state", "no panic".into(), format!("panic while draining a clone: {}", p)))?;
-        let want: Vec<Item> = (m.lo..m.hi).map(Item::Some).collect();
-        if rest != want {
-            return Err(fail("state_forward", show_items(&want), show_items(&rest)));
-        }
-        let rrest = catch(|| s.real.rest_rev()).map_err(|p| fail("panic_state", "no panic".into(), format!("panic while draining a clone backwards: {}", p)))?;
-        let wantr: Vec<Item> = (m.lo..m.hi).rev().map(Item::Some).collect();
-        if rrest != wantr {
-            return Err(fail("state_backward", show_items(&wantr), show_items(&rrest)));
+        if want_len <= FULL_DRAIN_LIMIT || step == 0 {
+            let rest = catch(|| s.real.rest()).map_err(|p| fail("panic_state", "no panic".into(), format!("panic while draining a clone: {}", p)))?;
+            let want: Vec<Item> = (m.lo..m.hi).map(Item::Some).collect();
+            if rest != want {
+                return Err(fail("state_forward", show_items_short(&want), show_items_short(&rest)));
+            }
+            let rrest = catch(|| s.real.rest_rev()).map_err(|p| fail("panic_state", "no panic".into(), format!("panic while draining a clone backwards: {}", p)))?;
+            let wantr: Vec<Item> = (m.lo..m.hi).rev().map(Item::Some).collect();
+            if rrest != wantr {
+                return Err(fail("state_backward", show_items_short(&wantr), show_items_short(&rrest)));
+            }
+        } else {
+            // thousands of remaining items: spot-check both ends and two interior positions per step
+            // instead of draining everything (the full drain still happens at step 0 of every run)
+            for j in [0usize, want_len - 1, (step * 7919 + m.lo * 31) % want_len] {
+                let (a, b) = catch(|| s.real.probe(j)).map_err(|p| fail("panic_state", "no panic".into(), format!("panic while probing a clone: {}", p)))?;
+                let (wa, wb) = (Item::Some(m.lo + j), Item::Some(m.hi - 1 - j));
+                if a != wa {
+                    return Err(fail("state_forward", format!("clone.nth({}) = {}", j, wa.show()), a.show()));
+                }
+                if b != wb {
+                    return Err(fail("state_backward", format!("clone.nth_back({}) = {}", j, wb.show()), b.show()));
+                }
+            }
         }
         debug_assert!(m.hi <= n);
         Ok(())
